@@ -39,6 +39,7 @@ def jobs(tier):
           {"name": "affine-call", "kind": "affine_call"}, {"name": "roaffine-call", "kind": "roaffine_call"},
           {"name": "decrule-get", "kind": "decrule_get"}]
     js += [{"name": f"convex-call-{xt}", "kind": "convex_call", "xtype": xt} for xt in XTYPES]
+    js += [{"name": "convex-sum-call", "kind": "convex_sum_call"}]
     js += [{"name": "dro-get", "kind": "dro_get"}, {"name": "dro-call", "kind": "dro_call"}]
     return js
 
@@ -273,6 +274,33 @@ def convex_call(xtype):
     return obs
 
 
+def convex_sum_call():
+    """exp(x).sum() / log(x).sum() evaluated at the solution: ONE number, the sum of the element-wise values (plus offset)."""
+    out = []
+    for xt, mk, sgn in (("X", rsome.exp, 1), ("L", rsome.log, 1)):
+        def setup(c, mk=mk):
+            m, x, y, X = new_ro()
+            model = m.rc_model
+            cv = mk(2.0 * x + 1.0).sum() + y
+            xbar = valuation(c, model, "sol")
+            if mk is rsome.log:
+                for v in views.flat(views.val(cv.affine_in, xbar)):
+                    c.assume(p_lt(0, v))
+            model.solution = lp.Solution("oracle", 0.0, xbar, 0, 0.0)
+            return {"cv": cv, "xbar": xbar, "x": x, "y": y}
+
+        def want(ns, xt=xt):
+            vin = [2.0 * ns["xbar"][ns["x"].first + i] + 1.0 for i in range(2)]
+            el = atoms.base(xt, np.array(vin, dtype=object), None)      # exp(v) resp. -log(v), element-wise
+            tot = sum(views.flat(el), 0.0)
+            return (tot if xt == "X" else -tot) + ns["xbar"][ns["y"].first]
+        obs, _ = check_function("rsome.lp:Convex.__call__", setup, lambda ns: ns["cv"](),
+                                [post("value-of-a-summed-atom-is-the-sum", lambda ns, res: (np.size(res) == 1 and views.all_eq(np.asarray(res, dtype=object).reshape(-1)[:1], [want(ns)])))],
+                                mode="D", label=f"sum-of-atom,xtype={xt}")
+        out += obs
+    return out
+
+
 # ------------------------------------------------------------------ RoAffine.__call__ / assign
 
 def roaffine_call():
@@ -408,6 +436,8 @@ def run_job(job):
         return vars_get()
     if k == "affine_call":
         return affine_call()
+    if k == "convex_sum_call":
+        return convex_sum_call()
     if k == "convex_call":
         return convex_call(job["xtype"])
     if k == "roaffine_call":
